@@ -3,7 +3,7 @@
    proofs in Lib/AddersProofs.v, Lib/ReducerProofs.v, Lib/MultProofs.v,
    Lib/SeqMultProofs.v.  Bit lists are LSB first; bval = unsigned value. *)
 From PyRTL Require Import Lib.Mult Lib.SeqMult Lib.BitListFacts Lib.AddersProofs
-  Lib.AddersProofs2 Lib.AddersProofs3 Lib.ReducerProofs Lib.MultProofs Lib.MultProofs2
+  Lib.AddersProofs2 Lib.AddersProofs3 Lib.AddersProofs4 Lib.ReducerProofs Lib.MultProofs Lib.MultProofs2
   Lib.SeqMultProofs.
 
 (* ------------------------------------------------------------------ adders *)
@@ -15,30 +15,28 @@ Theorem C13_ripple_add_exact : forall a b cin,
 Proof. exact ripple_add_exact. Qed.
 Print Assumptions C13_ripple_add_exact.
 
-(* kogge_stone as the code is today: exact for carry-in 0 (prefix invariant:
-   after the stage with distance d, gen[i] = generate of bits max(0,i-2d+1)..i) *)
-Theorem C13_kogge_stone_exact_cin0 : forall a b,
-  bval (kogge_stone a b false) = bval a + bval b /\
-  length (kogge_stone a b false) = S (Nat.max (length a) (length b)).
-Proof. exact kogge_stone_exact_cin0. Qed.
-Print Assumptions C13_kogge_stone_exact_cin0.
+(* kogge_stone as the code is today (carry-in folded into generate bit 0, fix
+   fa565d3): a + b + cin for every cin, via the prefix invariant "after the stage
+   with distance d, gen[i] = generate of bits max(0,i-2d+1)..i" *)
+Theorem C13_kogge_stone_exact : forall a b cin,
+  bval (kogge_stone a b cin) = bval a + bval b + b2z cin /\
+  length (kogge_stone a b cin) = S (Nat.max (length a) (length b)).
+Proof. exact kogge_stone_exact. Qed.
+Print Assumptions C13_kogge_stone_exact.
 
-(* the full statement "for every cin" is false of the code as it is (F9) *)
-Definition C13_kogge_stone_full_statement : Prop := forall a b cin,
-  bval (kogge_stone a b cin) = bval a + bval b + b2z cin.
+(* F9, the code before the fix (generate bits a & b): exact for cin = 0 only; the
+   statement for every cin was false of it *)
+Theorem C13_kogge_prefix_exact_cin0 : forall a b,
+  bval (kogge_stone_with ks_init_gen_asis a b false) = bval a + bval b /\
+  length (kogge_stone_with ks_init_gen_asis a b false) = S (Nat.max (length a) (length b)).
+Proof. exact kogge_stone_prefix_exact_cin0. Qed.
+Print Assumptions C13_kogge_prefix_exact_cin0.
 
-Theorem C13_kogge_cin_refuted :
-  exists a b cin, bval (kogge_stone a b cin) <> bval a + bval b + b2z cin.
-Proof. exact kogge_cin_refuted. Qed.
-Print Assumptions C13_kogge_cin_refuted.
-
-(* the same prefix network started from generate bits with cin folded into bit 0
-   (ks_init_gen_cin, the one-definition repair) is exact for every cin *)
-Theorem C13_kogge_stone_cinfold_exact : forall a b cin,
-  bval (kogge_stone_with ks_init_gen_cin a b cin) = bval a + bval b + b2z cin /\
-  length (kogge_stone_with ks_init_gen_cin a b cin) = S (Nat.max (length a) (length b)).
-Proof. exact kogge_stone_cinfold_exact. Qed.
-Print Assumptions C13_kogge_stone_cinfold_exact.
+Theorem C13_kogge_prefix_cin_refuted :
+  exists a b cin,
+    bval (kogge_stone_with ks_init_gen_asis a b cin) <> bval a + bval b + b2z cin.
+Proof. exact kogge_prefix_cin_refuted. Qed.
+Print Assumptions C13_kogge_prefix_cin_refuted.
 
 (* cla_adder / _cla_adder_unit: exact for every look-ahead unit length >= 1 *)
 Theorem C13_cla_adder_exact : forall la a b cin, (1 <= la)%nat ->
@@ -47,25 +45,33 @@ Theorem C13_cla_adder_exact : forall la a b cin, (1 <= la)%nat ->
 Proof. exact cla_adder_exact. Qed.
 Print Assumptions C13_cla_adder_exact.
 
-(* carrysave_adder with any exact final adder, whenever it returns *)
-Theorem C13_carrysave_exact : forall raises1 add a b c r,
+(* carrysave_adder as the code is today (fix 36743df), any exact final adder:
+   never raises and returns a + b + c *)
+Theorem C13_carrysave_exact : forall add a b c,
+  adder_ok add ->
+  exists r, carrysave_adder add a b c = Some r /\ bval r = bval a + bval b + bval c.
+Proof. exact carrysave_exact. Qed.
+Print Assumptions C13_carrysave_exact.
+
+(* F12, the code before the fix: exact whenever it returned, returned for widths >= 2,
+   raised when all three operands are one bit wide *)
+Theorem C13_carrysave_prefix_exact : forall raises1 add a b c r,
   adder_ok add -> carrysave_adder_with raises1 add a b c = Some r ->
   bval r = bval a + bval b + bval c.
 Proof. exact carrysave_exact_gen. Qed.
-Print Assumptions C13_carrysave_exact.
+Print Assumptions C13_carrysave_prefix_exact.
 
-Theorem C13_carrysave_defined : forall raises1 add a b c,
+Theorem C13_carrysave_prefix_defined : forall raises1 add a b c,
   (2 <= Nat.max (length a) (Nat.max (length b) (length c)))%nat ->
   exists r, carrysave_adder_with raises1 add a b c = Some r.
 Proof. exact carrysave_defined. Qed.
-Print Assumptions C13_carrysave_defined.
+Print Assumptions C13_carrysave_prefix_defined.
 
-(* ... but it raises when all three operands are one bit wide (F12) *)
-Theorem C13_carrysave_width1_refuted :
+Theorem C13_carrysave_prefix_width1_refuted :
   exists a b c, length a = 1%nat /\ length b = 1%nat /\ length c = 1%nat /\
-                carrysave_adder add_ripple a b c = None.
-Proof. exact carrysave_width1_refuted. Qed.
-Print Assumptions C13_carrysave_width1_refuted.
+                carrysave_adder_with true add_ripple a b c = None.
+Proof. exact carrysave_prefix_width1_refuted. Qed.
+Print Assumptions C13_carrysave_prefix_width1_refuted.
 
 (* the final adders used by the reducers (two-argument call, cin = 0) are exact *)
 Theorem C13_final_adders_exact :
@@ -92,6 +98,14 @@ Theorem C13_wallace_exact : forall fuel add cols rw r,
   bval r = colsum cols mod 2 ^ Z.of_nat rw.
 Proof. exact wallace_fuel_exact. Qed.
 Print Assumptions C13_wallace_exact.
+
+(* fuel sufficiency: with the fuel wallace_reducer uses (the maximal column height) the
+   reduction loop always finishes -- a pass lowers the maximal height while it is >= 3 --
+   so wallace_reducer returns None only where _sparse_adder raises *)
+Theorem C13_wallace_fuel_sufficient : forall cols rw,
+  exists c', wallace_loop (maxheight cols) rw cols = Some c'.
+Proof. exact wallace_fuel_sufficient. Qed.
+Print Assumptions C13_wallace_fuel_sufficient.
 
 (* dada_reducer (schedule 2,3,4,6,9,...; every column ends with height <= 2):
    column sum mod 2^result_bitwidth whenever it returns *)
@@ -126,32 +140,28 @@ Theorem C13_reducers_ok : reducer_ok wallace_reducer /\ reducer_ok dada_reducer.
 Proof. exact (conj wallace_exact dada_exact). Qed.
 Print Assumptions C13_reducers_ok.
 
-(* signed_tree_multiplier (sval = to_signed).  Full statement, false of the code (F10): *)
-Definition C13_signed_tree_multiplier_full_statement : Prop := forall A B r,
+(* signed_tree_multiplier as the code is today (full-width magnitudes, fix 04b48dd);
+   sval = to_signed: exact for every operand pair, the most negative value included *)
+Theorem C13_signed_tree_multiplier_exact : forall A B r,
   signed_tree_multiplier A B = Some r ->
   sval r = sval A * sval B /\ length r = (length A + length B)%nat.
+Proof. exact signed_tree_multiplier_fullmag_signed. Qed.
+Print Assumptions C13_signed_tree_multiplier_exact.
 
-Theorem C13_signed_tree_most_negative_refuted :
-  exists A B r, signed_tree_multiplier A B = Some r /\
+(* F10, the code before the fix (a[:-1], b[:-1]): wrong for the most negative operand,
+   exact otherwise *)
+Theorem C13_signed_prefix_most_negative_refuted :
+  exists A B r, signed_tree_multiplier_with stm_magnitude_prefix A B = Some r /\
     bval r <> (sval A * sval B) mod 2 ^ Z.of_nat (length A + length B).
 Proof. exact signed_tree_most_negative_refuted. Qed.
-Print Assumptions C13_signed_tree_most_negative_refuted.
+Print Assumptions C13_signed_prefix_most_negative_refuted.
 
-(* proved for every operand pair without the most negative value *)
-Theorem C13_signed_tree_multiplier_partial : forall A B r,
-  signed_tree_multiplier A B = Some r ->
+Theorem C13_signed_prefix_partial : forall A B r,
+  signed_tree_multiplier_with stm_magnitude_prefix A B = Some r ->
   sval A <> - 2 ^ Z.of_nat (length A - 1) -> sval B <> - 2 ^ Z.of_nat (length B - 1) ->
   sval r = sval A * sval B /\ length r = (length A + length B)%nat.
 Proof. exact signed_tree_multiplier_partial_signed. Qed.
-Print Assumptions C13_signed_tree_multiplier_partial.
-
-(* with all magnitude bits kept (stm_magnitude := fun a => a, the one-definition repair)
-   the statement holds for every operand pair *)
-Theorem C13_signed_tree_multiplier_fullmag_exact : forall A B r,
-  signed_tree_multiplier_with (fun x => x) A B = Some r ->
-  sval r = sval A * sval B /\ length r = (length A + length B)%nat.
-Proof. exact signed_tree_multiplier_fullmag_signed. Qed.
-Print Assumptions C13_signed_tree_multiplier_fullmag_exact.
+Print Assumptions C13_signed_prefix_partial.
 
 (* generalized_fma: the full statement is false of the code (F11) ... *)
 Definition C13_fma_full_statement : Prop := forall red add pairs adds r,
@@ -225,11 +235,11 @@ Example C13_example_tree_returns :
      = Some (7 * 5 + 3 * 11 + 6).
 Proof. vm_compute. repeat split; reflexivity. Qed.
 
-(* signed: (-3) * 5 on 4x4 bits; the hypotheses of the partial theorem hold *)
+(* signed: (-3) * 5 and (-8) * (-8) (both most negative) on 4x4 bits *)
 Example C13_example_signed :
   option_map sval (signed_tree_multiplier (zbits 4 (-3)) (zbits 4 5)) = Some (-15)
-  /\ sval (zbits 4 (-3)) = -3 /\ sval (zbits 4 (-3)) <> - 2 ^ Z.of_nat (4 - 1).
-Proof. vm_compute. repeat split; try reflexivity. discriminate. Qed.
+  /\ option_map sval (signed_tree_multiplier (zbits 4 (-8)) (zbits 4 (-8))) = Some 64.
+Proof. vm_compute. split; reflexivity. Qed.
 
 (* a 5-bit multiplication on the register machine: done after 3 cycles (A = 5 = 0b101) *)
 Example C13_example_simple_mult :
